@@ -125,9 +125,9 @@ def _chunk_body(args):
            'nontrivial': 0, 'extra': {}}
     gate = set(gate_jobs)
     for job in jobs:
-        _HISTORY.append(job)
         try:
             plan = _plan_for(check, job, tier, base_seed)
+            _HISTORY.append([list(job), plan])
             res = execute_guarded(check, plan)
         except Exception:
             out['harness_errors'].append({'job': job, 'trace': traceback.format_exc()[-3000:]})
@@ -154,6 +154,7 @@ def _chunk_body(args):
             out['samples'].append(check.sample_of(plan))
         if job in gate:
             out['digests'][canon(job)] = res.digest
+            out.setdefault('logs', {})[canon(job)] = [str(x)[:300] for x in res.log[:60]]
         if res.violations and len(out['violations']) < 4:
             keys = set(v['violation']['key'] for v in out['violations'])
             v0 = res.violations[0]
@@ -231,14 +232,22 @@ def replay_file(path, quiet=False, record=False):
     check = load_check(doc['property'])
     pre = doc.get('prelude')
     if pre:
-        # history needed: the runs that preceded this one in its worker (regenerated from their seeds)
-        for job in pre['jobs']:
+        # history needed: the runs that preceded this one in its worker process, as executed there (their plans;
+        # older files name them by job and regenerate them)
+        # (the parent of the worker pool had listed the structured plans once before forking: calibration runs included)
+        try:
+            list(check.extra_plans(pre['tier'], pre['base_seed']))
+        except Exception:
+            pass
+        for job, plan in pre.get('plans') or [[job, None] for job in pre.get('jobs', [])]:
             try:
-                execute_guarded(check, _plan_for(check, (job[0], job[1]), pre['tier'], pre['base_seed']))
+                # generating a plan may itself touch process-wide state (calibration requests): do that again, too,
+                # but execute the plan AS IT WAS executed in the worker
+                regenerated = _plan_for(check, (job[0], job[1]), pre['tier'], pre['base_seed'])
+                execute_guarded(check, plan if plan is not None else regenerated)
             except Exception:
                 pass
         if doc.get('job'):
-            # generating the plan may itself have touched process state (calibration runs): do that again, too
             try:
                 _plan_for(check, tuple(doc['job'][:2]), pre['tier'], pre['base_seed'])
             except Exception:
@@ -355,6 +364,7 @@ def run_check(pid, tier, base_seed, nproc=None, max_runs=None, write_evidence=Tr
                     agg['samples'].extend(r['samples'][:1])
                 agg['violations'].extend(r['violations'])
                 agg['digests'].update(r['digests'])
+                agg.setdefault('logs', {}).update(r.get('logs', {}))
                 agg['harness_errors'].extend(r['harness_errors'])
             for f in gfut:
                 r = f.result(timeout=7200)
@@ -363,6 +373,13 @@ def run_check(pid, tier, base_seed, nproc=None, max_runs=None, write_evidence=Tr
                     gate_reruns += 1
                     if agg['digests'].get(k) != d:
                         gate_mismatch.append(k)
+                        if len(gate_mismatch) <= 2:
+                            # show where the two executions of one plan part (diagnosis of the simulator itself)
+                            la, lb = agg.get('logs', {}).get(k, []), r.get('logs', {}).get(k, [])
+                            for x, y in zip(la + ['<end>'], lb + ['<end>']):
+                                if x != y:
+                                    notes.append('gate mismatch %s: first differing event\n    run A: %s\n    run B: %s' % (k, x, y))
+                                    break
 
             # other hash seeds
             hs_checked = 0
@@ -422,7 +439,7 @@ def run_check(pid, tier, base_seed, nproc=None, max_runs=None, write_evidence=Tr
                     # the violation needs state left behind by earlier runs of the same chunk
                     path = write_replay(check, v['plan'], v['violation'], v['digest'],
                                         {'minimised': {'fallback': 'with-prelude'}, 'tier': tier, 'job': v['job'], 'hashseed': hseed,
-                                         'prelude': {'jobs': v['prelude'], 'tier': tier, 'base_seed': base_seed}})
+                                         'prelude': {'plans': v['prelude'], 'tier': tier, 'base_seed': base_seed}})
                     rc, outp = _confirm(path, hseed)
                     if rc == 1:
                         notes.append('violation %s reproduces only after the %d runs that preceded it in its worker process '
